@@ -24,9 +24,9 @@ using namespace sim;
 namespace sim { void setProcessorCount(int n); }
 
 enum Code { T_CREATE = 1, T_REMOVE, L_LISTEN, L_REMOVE, E_ADDR, E_HOST, E_REMOVE, C_PAIR, C_REMOVE, C_WRITE, C_SUSPEND, C_RESUME, S_INTERRUPT, S_WAIT, S_ACCEPTPOLICY, S_QUIET,
-            R_CONNECT, R_LISTEN, R_STALL, I_INTERRUPT, I_STALL, C_CLOSEFAR, C_WRITEALL, CODE_N };
+            R_CONNECT, R_LISTEN, R_STALL, I_INTERRUPT, I_STALL, C_CLOSEFAR, C_WRITEALL, C_CROWD, C_CROWDGONE, CODE_N };
 static const char* codeName[] = {"?", "timer.create", "timer.remove", "listen", "listener.remove", "connect.addr", "connect.host", "establisher.remove", "pair", "client.remove", "client.write", "client.suspend", "client.resume",
-  "interrupt(self)", "wait", "accept.policy", "quiet_period", "remote.connect", "remote.listen", "remote.stall", "interrupter.interrupt", "interrupter.stall", "client.peer_closes", "client.write_all"};
+  "interrupt(self)", "wait", "accept.policy", "quiet_period", "remote.connect", "remote.listen", "remote.stall", "interrupter.interrupt", "interrupter.stall", "client.peer_closes", "client.write_all", "crowd.create", "crowd.remove_all"};
 static const char* opName(int c) { return (c > 0 && c < CODE_N) ? codeName[c] : "?"; }
 
 enum Kind { K_TIMER, K_LISTENER, K_ESTAB, K_CLIENT, K_DRIVER };
@@ -49,10 +49,11 @@ struct Ent {   // one per created object; never re-used within a run
   // listener
   int port; int acceptPolicy; int connectAction;   /* establisher: what its completion callbacks do (0 nothing, 1 write to the new client, 2 suspend it, 3 reconnect from onAbolished) */
 };
-static const int MAXENT = 96;
+static const int MAXENT = 320;
 struct Pending { int code; int slot; int64_t arg; };
 struct Ctx {
   const RunSpec* spec; Server* srv; Ent ent[MAXENT]; int nent;
+  Ent* crowd[96]; int ncrowd;   /* a crowd of extra pair clients: enough registered sockets for the poll layer's hash table (500 buckets) to have shared buckets */
   Ent* timerSlot[8];   /* with the driver and the loop's default timer up to ten queue entries: deep enough for every re-balancing case of the due-time tree */ Ent* listenerSlot[2]; Ent* estabSlot[3]; Ent* clientSlot[6];
   size_t pos; int waitTicks; bool scriptDone, finishing, stopped; Ent* driver;
   std::vector<Pending>* pendOwn; std::vector<Pending>* pendAny;
@@ -260,6 +261,16 @@ static void execOp(int code, int slot, int64_t arg, Ent* self) {
     for (int i = 0; i < 6; ++i) { Ent* e = C.clientSlot[i]; if (!e || e->removed) continue; usize n = 1 + (usize)(arg % 200); usize post = 0; if (((Server::Client*)e->handle)->write(hb, n, &post)) e->accepted += n; else { e->failedIO = true; failedNow++; } }
     if (failedNow >= 2) probe("several_clients_failed_in_one_callback");
     break; }
+  case C_CROWD: { /* many clients at once */
+    int want = 40 + (int)(arg % 50);
+    while (C.ncrowd < want && C.ncrowd < 96) { Ent* e = newEnt(K_CLIENT, -1); if (!e) break; e->far = new Socket; Server::Client* c = C.srv->pair(e->ccb, *e->far); if (!c) { e->alive = false; e->removed = true; break; }
+      e->handle = c; e->fd = (int)c->getSocket().getFileDescriptor(); C.crowd[C.ncrowd++] = e; }
+    { Host h; int shared = 0; for (int i = 0; i < C.ncrowd; ++i) for (int j = 0; j < i; ++j) if (!C.crowd[i]->removed && !C.crowd[j]->removed && hash((const void*)&((Server::Client*)C.crowd[i]->handle)->getSocket()) % 500 == hash((const void*)&((Server::Client*)C.crowd[j]->handle)->getSocket()) % 500) shared++; if (shared) probe("crowd_poll_bucket_shared"); }
+    probe("crowd_created"); break; }
+  case C_CROWDGONE: { /* remove them all, in a seeded order */
+    uint64_t z = (uint64_t)arg * 0x9e3779b97f4a7c15ULL + 1;
+    for (int left = C.ncrowd; left > 0; --left) { z ^= z >> 29; z *= 0xbf58476d1ce4e5b9ULL; z ^= z >> 32; int k = (int)(z % (uint64_t)left); Ent* e = C.crowd[k]; C.crowd[k] = C.crowd[left - 1]; if (e && !e->removed) removeEnt(e); }
+    C.ncrowd = 0; break; }
   case C_SUSPEND: { Ent* e = C.clientSlot[slot % 6]; if (e) { ((Server::Client*)e->handle)->suspend(); e->suspended = true; } break; }
   case C_RESUME: { Ent* e = C.clientSlot[slot % 6]; if (e) { e->suspended = false; ((Server::Client*)e->handle)->resume(); } break; }
   case S_INTERRUPT: C.interruptsInvoked++; C.srv->interrupt(); C.interruptsCompleted++; C.lastInterruptDoneSeq = ++C.seq; probe("interrupt_from_callback"); break;
@@ -372,7 +383,7 @@ static void generate(RunSpec& s, int tier) {
   s.knobs["remotes"] = nrem; s.knobs["interrupters"] = nint; static const int caps[] = {16, 256, 4096, 65536}; s.knobs["cap"] = caps[r(4)];
   static const int pct[] = {0, 0, 10, 40}; s.knobs["epoll_fault_pct"] = pct[r(4)]; s.knobs["send_fault_pct"] = pct[r(4)]; s.knobs["conn_fault_pct"] = pct[r(4)]; s.knobs["dns_fault_pct"] = pct[r(4)]; s.knobs["eintr_pct"] = r(3) == 0 ? 5 : 0;
   static const int synck[] = {1, 2, 3, 5}; s.knobs["sync_switch_log2"] = synck[r(4)]; static const int memk[] = {255, 8, 5, 3}; s.knobs["mem_switch_log2"] = memk[r(4)]; s.knobs["nproc"] = 1 + r(4); s.knobs["burst"] = 1 + (r(3) == 0 ? r(4) : 0);
-  int profile = (int)r(5);   // 0 mixed, 1 timer-heavy, 2 connection-heavy, 3 mixed, 4 close storm (many pairs whose peers close, heartbeat writes, removals from inside onClosed)
+  int profile = (int)r(6);   /* 5: crowd (many pair clients created, all removed in a seeded order, new clients created in the freed pool slots) */   // 0 mixed, 1 timer-heavy, 2 connection-heavy, 3 mixed, 4 close storm (many pairs whose peers close, heartbeat writes, removals from inside onClosed)
   s.knobs["closed_removes_partner"] = profile == 4 ? r(3) : (r(6) == 0 ? 1 : 0);
   int ns = 6 + (int)r(30);
   for (int i = 0; i < ns; ++i) {
@@ -380,9 +391,12 @@ static void generate(RunSpec& s, int tier) {
     uint64_t k = r(100);
     if (profile == 1) o.code = k < 45 ? T_CREATE : k < 80 ? T_REMOVE : k < 90 ? S_WAIT : C_PAIR;
     else if (profile == 2) o.code = k < 14 ? L_LISTEN : k < 20 ? L_REMOVE : k < 34 ? E_ADDR : k < 46 ? E_HOST : k < 54 ? E_REMOVE : k < 62 ? C_PAIR : k < 74 ? C_REMOVE : k < 80 ? C_WRITE : k < 84 ? S_ACCEPTPOLICY : k < 92 ? S_WAIT : S_INTERRUPT;
+    else if (profile == 5) o.code = i == 0 ? C_CROWD : (i == 2 || k < 8) ? C_CROWDGONE : k < 16 ? C_CROWD : k < 50 ? C_PAIR : k < 62 ? C_WRITE : k < 74 ? C_REMOVE : k < 80 ? C_WRITEALL : k < 92 ? S_WAIT : T_CREATE;
     else if (profile == 4) o.code = (i < 3 || k < 30) ? C_PAIR : k < 55 ? C_CLOSEFAR : k < 75 ? C_WRITEALL : k < 82 ? C_REMOVE : k < 88 ? C_WRITE : k < 94 ? S_WAIT : T_CREATE;
     else o.code = k < 14 ? T_CREATE : k < 24 ? T_REMOVE : k < 32 ? L_LISTEN : k < 36 ? L_REMOVE : k < 43 ? E_ADDR : k < 49 ? E_HOST : k < 54 ? E_REMOVE : k < 63 ? C_PAIR : k < 72 ? C_REMOVE : k < 79 ? C_WRITE : k < 83 ? C_SUSPEND : k < 87 ? C_RESUME : k < 91 ? S_INTERRUPT : k < 97 ? S_WAIT : S_ACCEPTPOLICY;
     if (o.code == T_CREATE && r(2)) o.a[1] = r(3);
+    if (profile == 5 && o.code == C_PAIR) o.a[1] = 3 * (int64_t)r(30000);   /* the far end sends something: the new client must be read */
+    if (profile == 5) o.a[3] = 0;   /* executed by the driver */
     if (profile == 4 && o.code == C_PAIR && r(2)) o.a[1] = 3 + 7 * (int64_t)r(1000);   /* three pairs at once */
     if (profile != 4 && r(25) == 0) o.code = r(2) ? C_CLOSEFAR : C_WRITEALL;
     if (r(12) == 0) { o.code = S_QUIET; o.a[3] = 0; }   // bias towards small equal intervals: coincident due times
